@@ -127,6 +127,15 @@ META["C13"] = {
             "environment (every environment position is treated as live).",
     "technique": "static analysis: abstract interpretation of emission functions (MIR facts) + symbolic machine with ABI clobber model",
 }
+META["C11"] = {
+    "level": "Per-backend semantic validation, by abstract interpretation + symbolic machine, of the pieces the generic algorithm "
+             "relies on (park/move/restore interplay over all placement combinations, guard exactness over all small trees, mov "
+             "templates), plus order/ref-count discipline of Substitute. The spanning-forest algorithm itself is not decided.",
+    "design_ref": "DESIGN.md §4 C11 (R-MIRROR, R-SCRATCH, R-ORDER realised semantically)",
+    "note": "Narrow: necessary conditions on the backend hooks and on Substitute::code_statement; the generic parallel-move "
+            "algorithm over all maps is out of reach for this family.",
+    "technique": "static analysis: abstract interpretation of MIR emission functions + symbolic machine; dominator/provenance rules",
+}
 
 NOT_APPLICABLE = {
     "C09": "Run-time heap invariant of *generated* code at every statement boundary of every execution; no path property of the "
@@ -136,5 +145,5 @@ NOT_APPLICABLE = {
 }
 # properties whose checks are not built yet are listed here until their rules exist (kept current by bin/gen-manifest)
 PENDING = "check not built yet in this round; planned rules are in DESIGN.md §4"
-for _p in ["C11", "C14", "C15", "C16", "C20"]:
+for _p in ["C14", "C15", "C16", "C20"]:
     NOT_APPLICABLE.setdefault(_p, PENDING)
